@@ -244,7 +244,7 @@ def rule_postfix_result_is_number(ctx, rep, rid: str) -> None:
     numeric = set()
     for mem, body, _ in chain.branches:
         pushes = [c for s_ in body for c in ast.walk(s_) if isinstance(c, ast.Call) and isinstance(c.func, ast.Attribute) and c.func.attr == "append" and norm(c.func.value) == "self.stack"]
-        if len(pushes) == 1 and pushes[0].args and isinstance(pushes[0].args[0], ast.Call) and norm(pushes[0].args[0].func) == "to_number":
+        if len(pushes) == 1 and pushes[0].args and isinstance(pushes[0].args[0], ast.Call) and norm(pushes[0].args[0].func) in ("to_number", "self._to_number"):
             numeric |= set(mem)
     if not numeric:
         raise AnalysisError("no instruction whose handler pushes to_number(..) found")
@@ -447,12 +447,19 @@ def rule_int_results_normalised(ctx, rep, rid: str) -> None:
     for names, body, ifnode in chain.branches:
         if not any(x in ("ADD", "SUB", "MUL", "INC", "DEC") for x in names):
             continue
+        popped = {a.targets[0].id for s_ in body for a in ast.walk(s_) if isinstance(a, ast.Assign) and len(a.targets) == 1 and isinstance(a.targets[0], ast.Name) and norm(a.value) == "self.stack.pop()"}
         for s_ in body:
             for c in ast.walk(s_):
                 if isinstance(c, ast.Call) and norm(c.func) == "self.stack.append" and c.args:
                     v = c.args[0]
                     n += 1
                     key = f"{df.qual}:{'/'.join(names)}:push({short(v, 30)})"
+                    raw = isinstance(v, ast.BinOp) and isinstance(v.op, (ast.Add, ast.Sub, ast.Mult)) and any(isinstance(x, ast.Name) and x.id in popped for x in (v.left, v.right))
+                    if raw and not floaty(v, df):
+                        # host arithmetic directly on an operand taken off the stack (a fast path for ints): the
+                        # operand is a Number, the result of int + int is an int of any size
+                        rep.bad(rid, key, f"the {'/'.join(names)} handler pushes `{short(v, 30)}`, host arithmetic on the operand as it came off the stack, without the normaliser: for the int 9007199254740992 the result is 9007199254740993, a whole number no double has (x++ at 2**53 then differs from x + 1)", f"{df.module.rel}:{c.lineno}")
+                        continue
                     if wrapped(v) or floaty(v, df):
                         rep.ok(rid, key)
                     elif isinstance(v, ast.Call) and isinstance(v.func, ast.Attribute) and norm(v.func.value) == "self":
@@ -1028,3 +1035,39 @@ def rule_fmod_parity(ctx, rep, rid: str, modules=("values", "vm", "context")) ->
                 rep.bad(rid, key, f"{f.qual} tests `{short(c, 50)}`: {norm(left.func)} keeps the sign of the dividend, so for a negative `{norm(x)}` the remainder is negative and the test fails for every negative odd value (Math.pow(-0, -3) and (-0) ** -5 must be -Infinity: the exponent -3 IS odd)", f"{f.module.rel}:{c.lineno}")
     if n == 0:
         rep.ok(rid, "no-signed-remainder-test", {"note": "no comparison of an fmod/remainder result with a positive constant in " + ", ".join(modules)})
+
+
+# ---- arithmetic handlers convert operands the same way, left operand first --------------------------------
+
+
+def rule_arithmetic_conversion_agrees(ctx, rep, rid: str) -> None:
+    """Every arithmetic operator applies ToNumeric to its operands: for an object that is ToPrimitive - valueOf, then
+    toString - whose result (or exception) is part of the operator's behaviour.  The interpreter has an object-aware
+    conversion (a method) and the plain one of the values module (for which an object is NaN); a handler that uses the
+    plain one on a popped operand never calls valueOf.  And the left operand is converted before the right one."""
+    rep.rule(rid, "the handlers of SUB, MUL, DIV, MOD, POW, NEG and POS convert the operands they pop with the interpreter's object-aware conversion (never the values module's plain to_number), the left operand before the right", floor=5)
+    df, chain = ctx.facts.vm_dispatcher()
+    n = 0
+    for opn in ("SUB", "MUL", "DIV", "MOD", "POW", "NEG", "POS"):
+        body = chain.body_of(opn)
+        if body is None:
+            continue
+        n += 1
+        key = f"{df.qual}:{opn}:operand-conversion"
+        popped = [a.targets[0].id for s_ in body for a in ast.walk(s_) if isinstance(a, ast.Assign) and len(a.targets) == 1 and isinstance(a.targets[0], ast.Name) and norm(a.value) == "self.stack.pop()"]
+        plain = [c for s_ in body for c in ast.walk(s_) if isinstance(c, ast.Call) and isinstance(c.func, ast.Name) and c.func.id == "to_number" and c.args and isinstance(c.args[0], ast.Name) and c.args[0].id in popped]
+        aware = [c for s_ in body for c in ast.walk(s_) if isinstance(c, ast.Call) and isinstance(c.func, ast.Attribute) and norm(c.func.value) == "self" and "to_num" in c.func.attr and c.args and isinstance(c.args[0], ast.Name) and c.args[0].id in popped]
+        loc = f"{df.module.rel}:{body[0].lineno}"
+        if plain:
+            rep.bad(rid, key, f"the handler of {opn} converts `{plain[0].args[0].id}` with the plain `to_number`, for which every object is NaN: valueOf/toString of an object operand are never called (`[5] - 0` is NaN although `[5] * 1` is 5, and `-{{valueOf(){{ throw 7 }}}}` throws nothing)", f"{df.module.rel}:{plain[0].lineno}")
+            continue
+        if len(popped) == 2 and len(aware) >= 2:
+            # popped right operand first, then left: the left one (second popped) must be converted first
+            right, left = popped[0], popped[1]
+            order = sorted(aware, key=lambda c: (c.lineno, c.col_offset))
+            if order[0].args[0].id != left:
+                rep.bad(rid, key, f"the handler of {opn} converts the right operand `{right}` before the left operand `{left}`: the valueOf of the two operands run in the wrong order", f"{df.module.rel}:{order[0].lineno}")
+                continue
+        rep.ok(rid, key, {"conversions": len(aware)})
+    if n < 5:
+        raise AnalysisError(f"{rid}: arithmetic handlers not found ({n})")
